@@ -48,6 +48,9 @@ ASSUMPTIONS = [
     'third-party objects (dataset edited after construction, parsed again): non-contiguous segment numbers in BINARY / FRACTIONAL '
     'objects are drawn except for TILED_FULL, where the segment of a frame is implied by its position and the library takes '
     'the ordinal for the number (tried once: such an object reads as empty for its real numbers; the standard requires 1..n there)',
+    'third-party label maps with PixelPaddingValue != 0 (stream ppv): an unrelabelled combined read keeps the object\'s own '
+    'background value where no requested segment is (code: "sets unused segments to the background value") — the oracle takes that '
+    'value for the 0 of the property statement there; relabelled and stacked reads must give 0; not drawn for tiled objects (comparing the stored padding of edge tiles would need the tile layout); the refinement theorem asks bg = 0',
     'a BINARY / FRACTIONAL object that does not use ReferencedSegmentNumber as a dimension index (Segment Identification only in '
     'the shared functional groups) cannot be read by segment at all: every read fails with KeyError / sqlite3.OperationalError; '
     'the model mirrors the refusal (segIndexed), the oracle is silent there (findings/C02.json: open, docs/C02.md)',
@@ -215,6 +218,12 @@ def _draw_object(ctx, idx):
         d['nums'] = sorted(r3.sample(range(1, 300 if r3.random() < 0.8 else 60000), len(nums)))
     elif segtype != 'LABELMAP' and len(nums) == 1 and r3.random() < 0.12 and kind != 'tiled':
         third.append('shared_seg')     # Segment Identification only in the shared functional groups, not a dimension
+    if segtype == 'LABELMAP' and kind != 'tiled' and r3.random() < 0.25:
+        # a label map whose background is not 0: PixelPaddingValue = a number no segment has (the background item of the
+        # SegmentSequence and the stored background pixels follow)
+        free = [x for x in range(1, 120) if x not in d['nums']]
+        third.append('ppv')
+        d['ppv'] = r3.choice(free)
     if r3.random() < 0.25 and not tiled_full_maybe:
         third.append('permute')        # frames stored in another order
         d['perm_seed'] = r3.randrange(10 ** 6)
@@ -324,6 +333,20 @@ def _build(ctx, d):
     px = pydicom.dcmread(io.BytesIO(blob)).pixel_array       # pydicom's own decoding of the stored frames
     if px.ndim == 2:
         px = px[None]
+    if 'ppv' in third:
+        ds = pydicom.dcmread(io.BytesIO(blob))
+        v = int(d['ppv'])
+        ds.PixelPaddingValue = v
+        for it in ds.SegmentSequence:
+            if int(it.SegmentNumber) == 0:
+                it.SegmentNumber = v
+        px = px.copy()
+        px[px == 0] = v
+        data = px.astype(np.uint16 if int(ds.BitsAllocated) == 16 else np.uint8).tobytes()
+        ds.PixelData = data + (b'\x00' if len(data) % 2 else b'')
+        buf = io.BytesIO()
+        ds.save_as(buf)
+        blob = buf.getvalue()
     if 'permute' in third and px.shape[0] > 1:
         ds = pydicom.dcmread(io.BytesIO(blob))
         perm = list(range(px.shape[0]))
@@ -647,6 +670,9 @@ def _expected(obj, rq, plane_masks):
     segs = rq['segs']
     if len(set(segs)) != len(segs):
         return ('refuse', 'a segment number is requested twice')
+    if d.get('ppv') is not None and rq['combine'] and not rq['relabel'] and rq['dtype'] is not None \
+            and d['ppv'] > DTYPE_MAX[rq['dtype']]:
+        return ('either', 'the background value kept by an unrelabelled combined read does not fit the dtype')
     if 'shared_seg' in (d.get('third') or []):
         return ('either', 'ReferencedSegmentNumber is not a dimension index of this object (see ASSUMPTIONS)')
     cols = [nums.index(s) for s in segs]
@@ -658,7 +684,7 @@ def _expected(obj, rq, plane_masks):
     if d.get('patch_mfv'):
         return ('either', 'malformed object: stored values exceed the patched MaximumFractionalValue')
     if frac and rq['combine'] and not rq['rescale']:
-        return ('either', 'combining FRACTIONAL without rescale is refused by design')
+        return ('refuse', 'combining a FRACTIONAL segmentation needs rescale_fractional (documented refusal)')
     if rescaled and rq['dtype'] is not None and not rq['dtype'].startswith('float'):
         return ('refuse', 'rescaled fractional output needs a float dtype')
     ceiling = _value_ceiling(d, rq)
@@ -952,7 +978,13 @@ def _run_read(ctx, obj, rq, frames, info):
         if st != 'ok':
             ctx.fail(case, 'valid request refused: ' + val, site=site + '/accept')
         else:
-            why = _compare(val, exp[1], exp[2], d, rq)
+            if d.get('ppv') is not None and rq['combine'] and not rq['relabel']:
+                # an unrelabelled combined read of a label map keeps the object's own background value where no requested
+                # segment is (ASSUMPTIONS); everywhere else the background is 0
+                seen = np.where(np.asarray(val) == d['ppv'], 0, np.asarray(val)).astype(np.asarray(val).dtype)
+            else:
+                seen = val
+            why = _compare(seen, exp[1], exp[2], d, rq)
             if why is not None:
                 ctx.fail(case, why, site=site + '/value')
             else:
@@ -1368,7 +1400,7 @@ def _object_cases(ctx, d, reqs, pending):
         return
     frames = _stored_view(obj)
     info = _plane_lookup(obj, frames)
-    if d['type'] == 'LABELMAP' and d['form'] == 'stack4d' and d['kind'] != 'tiled':
+    if d['type'] == 'LABELMAP' and d['form'] == 'stack4d' and d['kind'] != 'tiled' and d.get('ppv') is None:
         # L1: the stored label planes are the model's construction-time combination of the stacked input
         for f in frames:
             p = (f['frame'] - 1) if d['kind'] == 'multiframe' else (info['uid_of_plane'].index(f['uid']) if f['uid'] else None)
